@@ -127,6 +127,21 @@ def run(c):
                     p = max(i for i in range(len(dx)) if dx[i] <= x)
                     if (y - dy[p]) * (dx[p + 1] - dx[p]) != (dy[p + 1] - dy[p]) * (x - dx[p]):
                         rounded += 1
+    # ---- the returned function as a sequential object: a lookup must not depend on earlier lookups (PieceSeq.tla)
+    sedges = c.path("pieceseq_edges.ndjson")
+    sres = c.tlc_must_pass("fn", "MC_PieceSeq", cfg="MC_PieceSeq", edges_out=sedges, workers=4, timeout=900)
+    srep = vlib.replay_edges(c, "piecefunc-seq", sedges, walks=c.pick(300, 3000), wlen=c.pick(30, 60), clause="history-independence")
+    back = 0          # lookups that follow a lookup in a LATER piece of the same function (previous x beyond the next inner dot)
+    with open(sedges) as f:
+        for l in f:
+            e = json.loads(l)
+            xs_ = [d[0] for d in e["pre"]["dots"]]
+            pv, x = e["pre"]["prev"], e["act"]["x"]
+            if pv > x and any(x < m <= pv for m in xs_[1:-1]):
+                back += 1
+    c.log("PieceSeq: %d states, %d ordered lookup pairs replayed on one instance each (%d going back to an earlier piece), %d walks" % (
+        sres.distinct, srep["applied"], back, srep["walks"]))
+    c.guard("lookups_back_to_an_earlier_piece", back)
     for g in ("valid_lists", "invalid_lists", "x_before-first", "x_after-last", "x_at-dot", "x_between"):
         c.guard(g, cnt.get(g, 0))
     c.guard("values_where_rounding_shows", rounded)
@@ -174,16 +189,19 @@ def run(c):
     c.guard("extreme_cases_refused", len([cs for cs in ext if cs["panicked"]]))
     obl.wait()
     cov = dict(
-        evaluations=rep["compared"] + ext_values,
+        evaluations=rep["compared"] + ext_values + srep["applied"] + srep["walk_steps"],
+        lookup_pairs_replayed_on_one_instance=srep["applied"], lookup_pairs_back_to_earlier_piece=back,
+        traces_validated_against_impl=srep["walks"], walk_steps=srep["walk_steps"],
         distinct_nontrivial=len(between),
         rule="(a) TLC: every dot list of cfg %s (all lists up to length MaxAny in any X order, strictly increasing ones up to 4 dots, every x in 0..XMax+1), "
              "clauses of the statement checked on each; (b) seeded dot lists with coordinates <= 2000 (2-6 dots, packed and spread, ~10%% invalid) with "
              "arguments at, next to and between the dots, Get evaluated by TLC with the real unit; every value compared exactly with the real function, "
              "panics compared with ValidDots; (c) %d lists at the range extremes: results of the real code validated by Apalache against PieceFunc!Get. "
+             "(d) PieceSeq.tla: the returned function as a sequential object, all ordered pairs of lookups on 26 lists of 3-4 dots on ONE instance + random walks. "
              "Non-trivial = distinct (list, x) with x strictly between two dots and not at a dot" % (cfg, len(ext)),
         dot_lists=rep["vectors"], values_compared=rep["compared"], classes=cnt, values_where_rounding_shows=rounded,
         extreme_cases=len(ext), extreme_values_validated_by_apalache=ext_values, extreme_cases_disagreeing=len(ext_failed),
-        states=res.distinct, transitions=res.generated, exhaustive=False,
+        states=c.tlc_states, transitions=c.tlc_transitions, exhaustive=False,
         samples=rep["samples"][:2] + ext[:2],
     )
     cov.update(obl.summary())
@@ -191,6 +209,7 @@ def run(c):
     return c.finish("exploration", cov, assumptions=[
         "the clauses are proved for ONE pair of neighbouring dots over the whole range (Apalache); piece selection, out-of-range behaviour and list "
         "validation are model-checked by TLC on small lists only",
+        "history independence: every ordered pair of lookups (x', x) on 26 lists of 3-4 dots is executed on one function instance, longer histories by random walks",
         "the real code is bound to the specification by vectors: exact TLC values for coordinates <= 2000, Apalache-validated results for a few lists at "
         "the extremes; a defect confined to an unsampled region of the 2^64 domain is not detected",
         "TLC, SANY, Apalache/Z3 and the Json/IOUtils modules are trusted"])
